@@ -176,3 +176,172 @@ PROPS["C02"] = {
     "projection": "unit: transform_text(s) vs cleanText(s); pipeline: whole output modulo renaming of generated identifiers",
     "explanation": "cleanText (Lean) is the JSX text rule; theorems hold for all strings; the Rust transform_text is compared with it exhaustively on short strings and on random ones; the oracle checks that the multiset of cleaned non-empty JSX texts of the input equals the createTextVNode arguments of the real output",
 }
+
+
+# ------------------------------------------------------------------------------------------------------------
+# generic module-level generation
+# ------------------------------------------------------------------------------------------------------------
+
+def gen_modules(r, n, profile, opts_fn, prefix="m", tsx=False):
+    hist = collections.Counter()
+    out = []
+    for i in range(n):
+        g = gen.Gen(r, dict(profile))
+        src = g.module()
+        hist.update(g.used)
+        out.append({"id": "%s%d" % (prefix, i), "src": src, "tsx": tsx, "opts": opts_fn(r)})
+    return out, hist
+
+
+def std_opts(r):
+    o = gen.opts_random(r)
+    if r.chance(0.25):
+        o["customElementPatterns"] = ["^x-", "custom"]
+    if r.chance(0.08):
+        o["pragma"] = "h"
+    return o
+
+
+ALL_TAGS = {"html": 5, "svg": 1, "custom": 2, "bound": 4, "unbound": 2, "member": 2, "this": 1, "ns": 0, "Fragment": 1, "_Fragment": 1, "KeepAlive": 1}
+
+# ---- C01 ---------------------------------------------------------------------------------------------------
+ATTR_ALPHABET = ['id="a"', 'id={x}', 'flag', 'class="a b"', 'class={cls}', 'style={obj}', 'onClick={fn1}', 'onClick={handler}',
+                 'xlink:href="u"', '{...obj}', '{...{id: 1, title: y}}', '{...f()}', 'on={{click: fn1}}', 'title="t "']
+
+
+def c01_cases(tier, seed):
+    r = gen.Rng(seed)
+    run = corpus_cases("C01") + fixture_cases()
+    k = budget(tier, 2, 3, 3)
+    optsets = [{}, {"mergeProps": False}, {"transformOn": True}, {"transformOn": True, "mergeProps": False}, {"optimize": True, "customElementPatterns": ["^my-"]}]
+    n_exh = 0
+    for n in range(0, k + 1):
+        for combo in itertools.product(ATTR_ALPHABET, repeat=n):
+            for ti, tag in enumerate(["div", "Comp", "my-el", "Unk", "NS.Item"]):
+                if n == 3 and ti > 1:
+                    continue
+                for oi, o in enumerate(optsets):
+                    if n >= 2 and (oi + ti + len(run)) % (3 if tier != "thorough" else 1):
+                        continue
+                    run.append({"id": "e%d" % len(run), "src": gen.PRELUDE + "const v = <%s %s/>;\n" % (tag, " ".join(combo)), "tsx": False, "opts": o})
+                    n_exh += 1
+    prof = {"tags": ALL_TAGS, "w_directive": 0, "w_spread": 3, "w_repeat": 2,
+            "attr_names": {"plain": 6, "class": 3, "style": 2, "key": 1, "ref": 1, "onClick": 2, "on": 2, "ns": 1, "onUpdate": 1, "model-like": 1, "on-obj": 2},
+            "attr_values": {"string": 4, "none": 2, "expr": 6, "const": 3, "string-ws": 2, "jsx": 0, "empty": 0},
+            "n_attrs": [(0, 1), (1, 3), (2, 4), (3, 3), (4, 2), (6, 1)]}
+    mods, hist = gen_modules(r, budget(tier, 2500, 60000), prof, std_opts)
+    run += mods
+    return [], run, {"rule": "fixtures + attribute sequences of length <= %d over a 14-symbol attribute alphabet x 5 hosts x 5 option sets (%d cases; length-%d part sampled 1/3 unless thorough) + %d generated modules (all tag forms, static/boolean/expression/namespaced attributes, spreads of ident/object literal/call, repeated class/style/listeners, on/nativeOn, random options incl. customElementPatterns and pragma); non-trivial = vnode calls produced" % (k, n_exh, k, len(mods)),
+                     "exhaustive": False, "histogram": dict(hist.most_common(40))}
+
+
+PROPS["C01"] = {
+    "theorems": ["C01_tag_known", "C01_tag_fragment", "C01_tag_pattern", "C01_tag_unresolved", "C01_tag_bound", "C01_tag_member",
+                 "C01_valueless_true", "C01_string_value_cleaned", "C01_expr_value", "C01_spread_plain", "C01_spread_merge",
+                 "C01_no_attrs", "C01_assemble_merge"],
+    "cases": c01_cases,
+    "explanation": "oracle: for every JSX element of the input, the vnode type and the props normal form (Sem.normOps: Vue mergeProps / plain last-wins semantics, class/style/listener concatenation) DENOTED by the written attributes equal those EVALUATED from the real output's createVNode arguments (mergeProps calls, deduplicated literals, _transformOn layers); elements with v-model are judged by C05",
+}
+
+# ---- C03 ---------------------------------------------------------------------------------------------------
+CHILD_SHAPES = ["", "{val}", "{x}", "{f()}", "{obj.m(1)}", "{() => 1}", "{function () { return 1 }}", "{{ a: fn1 }}", "text", "<i/>", "{x}{y}", "{...list}",
+                "{cond ? a : b}", "  \n  ", "{/* c */}", "<></>", "{val} "]
+VSLOTS = ["", " v-slots={slotsObj}", " v-slots={{ named: () => 1 }}", " v-slots={x}"]
+CTXS = ["const v = %s;", "function f() { return %s; }", "const r = () => %s;", "for (const i of list) { out.push(%s); }", "class K { m(a = 1) { return %s; } }", "let w; w = %s;"]
+
+
+def c03_cases(tier, seed):
+    r = gen.Rng(seed)
+    run = corpus_cases("C03") + fixture_cases()
+    hosts = ["Comp", "Unk", "NS.Item", "this.C", "KeepAlive", "Fragment", "div"]
+    n_exh = 0
+    for host, ch, vs, ci in itertools.product(hosts, CHILD_SHAPES, VSLOTS, range(len(CTXS))):
+        if tier == "quick" and (n_exh + ci) % 4 and ci > 0:
+            n_exh += 1
+            continue
+        n_exh += 1
+        for o in ([{}, {"enableObjectSlots": False}, {"optimize": True}] if ci == 0 else [{"optimize": bool(n_exh % 2)}]):
+            run.append({"id": "e%d" % len(run), "src": gen.PRELUDE + CTXS[ci] % ("<%s%s>%s</%s>" % (host, vs, ch, host)) + "\n", "tsx": False, "opts": o})
+    prof = {"tags": {"bound": 5, "unbound": 3, "member": 2, "this": 1, "html": 2, "KeepAlive": 1, "Fragment": 1, "_Fragment": 1, "custom": 1},
+            "w_directive": 1, "directives": {"slots": 5, "show": 1, "custom": 1},
+            "children": {"text": 3, "expr": 3, "ident": 5, "call": 5, "empty": 1, "comment": 1, "spread": 1, "element": 4, "fragment": 1, "fn": 2, "objlit": 2},
+            "n_children": [(0, 2), (1, 8), (2, 2), (3, 1)],
+            "contexts": {"expr-stmt": 3, "const": 3, "fn-body": 2, "arrow-expr": 3, "arrow-block": 2, "assign": 2, "nested-block": 1, "class-method": 1, "export-default": 1, "loop": 2}}
+    mods, hist = gen_modules(r, budget(tier, 2500, 60000), prof, std_opts)
+    run += mods
+    return [], run, {"rule": "fixtures + product of 7 hosts x 17 child shapes x 4 v-slots forms x 6 syntactic contexts (x option sets; contexts other than the first sampled 1/4 in quick) + %d generated modules biased to component hosts with a sole identifier/call/function/object child" % len(mods),
+                     "exhaustive": tier != "quick", "exhaustive_part": "hosts x child shapes x v-slots forms x contexts product", "histogram": dict(hist.most_common(40))}
+
+
+PROPS["C03"] = {
+    "theorems": ["C03_no_children", "C03_multiple_wrapped", "C03_wrap_shape", "C03_wrap_vslots_literal", "C03_function_child",
+                 "C03_object_child", "C03_ident_runtime", "C03_ident_disabled", "C03_call_once", "C03_generated_call_wrapped", "C03_helper"],
+    "cases": c03_cases,
+    "explanation": "oracle: for every component host the slots normal form denoted by the written children (default thunk in order / function child / object child / runtime decision for a sole identifier or call / v-slots entries beside default) equals the one evaluated from the real output's third createVNode argument, temporaries substituted (a call child must be assigned exactly once inside the _isSlot test)",
+}
+
+# ---- C04 ---------------------------------------------------------------------------------------------------
+DIR_NAMES = ["v-foo", "vFoo", "v-my-dir", "vMyDir", "v-foo:arg", "v-foo_a", "v-foo_a_b", "vFooBar_m", "v-x:y_m_n", "v-show", "vShow", "v-html", "vHtml", "v-text", "vText"]
+DIR_VALUES = ["={x}", "={[x]}", "={[x, 'arg']}", "={[x, ['m1', 'm2']]}", "={[x, 'arg', ['m']]}", "={[x, y]}", "={[x, y, ['m']]}", '="lit"', "={f(1)}", "={obj.a}"]
+
+
+def c04_cases(tier, seed):
+    r = gen.Rng(seed)
+    run = corpus_cases("C04") + fixture_cases()
+    for name, val, host, nb in itertools.product(DIR_NAMES, DIR_VALUES, ["div", "Comp", "input"], ["", ' id="a"', " {...obj}", " v-show={y} class={cls}"]):
+        if tier == "quick" and (len(run) % 2):
+            run.append(None)
+            continue
+        run.append({"id": "e%d" % len(run), "src": gen.PRELUDE + "const v = <%s%s %s%s>t{x}</%s>;\n" % (host, nb, name, val, host), "tsx": False,
+                    "opts": {"optimize": bool(len(run) % 3 == 0), "mergeProps": len(run) % 5 != 0}})
+    run = [c for c in run if c]
+    prof = {"tags": ALL_TAGS, "w_directive": 6, "directives": {"custom": 5, "show": 2, "html": 2, "text": 2, "model": 1, "models": 0, "slots": 1}}
+    mods, hist = gen_modules(r, budget(tier, 2500, 60000), prof, std_opts)
+    run += mods
+    return [], run, {"rule": "fixtures + product of 15 directive spellings x 10 value shapes x 3 hosts x 4 neighbourhoods (sampled 1/2 in quick) + %d generated modules rich in directives" % len(mods),
+                     "exhaustive": tier != "quick", "exhaustive_part": "spellings x value shapes x hosts x neighbourhoods product", "histogram": dict(hist.most_common(40))}
+
+
+PROPS["C04"] = {
+    "theorems": ["C04_name_first_letter_only", "C04_plain_name_no_argument", "C04_namespaced_argument", "C04_show_is_vShow",
+                 "C04_custom_resolved_by_name", "C04_expression_value", "C04_frame", "C04_html_sets_innerHTML", "C04_text_sets_textContent"],
+    "cases": c04_cases,
+    "explanation": "oracle: the runtime directive bindings (definition, value, argument, modifiers) denoted by every v-name/vName attribute equal those evaluated from the second argument of withDirectives in the real output; absent values, empty arrays and holes are outside the quantifier (C07/C08)",
+}
+
+# ---- C05 ---------------------------------------------------------------------------------------------------
+MODEL_NAMES = ["v-model", "vModel", "v-model:foo", "v-model_trim", "v-model:foo_lazy", "v-model_a_b"]
+MODEL_VALUES = ["={T}", "={[T]}", "={[T, 'arg']}", "={[T, ['lazy']]}", "={[T, 'arg', ['m']]}", "={[T, x]}", "={[T, x, ['m']]}"]
+MODEL_HOSTS = ["input", 'input type="checkbox"', 'input type="radio"', 'input type="text"', "input type={t}", "select", "textarea", "div", "Comp", "Unk", "NS.Item"]
+
+
+def c05_cases(tier, seed):
+    r = gen.Rng(seed)
+    run = corpus_cases("C05") + fixture_cases()
+    for name, val, host, tgt in itertools.product(MODEL_NAMES, MODEL_VALUES, MODEL_HOSTS, ["val", "obj.a", "list[0]"]):
+        if tier == "quick" and tgt != "val" and len(run) % 3:
+            run.append(None)
+            continue
+        tag = host.split(" ")[0]
+        run.append({"id": "e%d" % len(run), "src": gen.PRELUDE + "const v = <%s %s%s></%s>;\n" % (host, name, val.replace("T", tgt), tag), "tsx": False,
+                    "opts": {"optimize": bool(len(run) % 2), "mergeProps": len(run) % 3 != 0}})
+    for host in ["Comp", "input", "div"]:
+        for models in ["[[val, 'a'], [x, ['m']], [obj.b]]", "[[val]]", "[[val, 'a', ['m']], [x, y]]", "[]"]:
+            for rest in ["", ' id="a"', " v-model={z}"]:
+                run.append({"id": "e%d" % len(run), "src": gen.PRELUDE + "const v = <%s v-models={%s}%s/>;\n" % (host, models, rest), "tsx": False, "opts": {}})
+    run = [c for c in run if c]
+    prof = {"tags": {"html": 6, "bound": 4, "unbound": 2, "member": 1, "custom": 1}, "w_directive": 6,
+            "directives": {"model": 8, "models": 3, "show": 1, "custom": 1}}
+    mods, hist = gen_modules(r, budget(tier, 2500, 60000), prof, std_opts)
+    run += mods
+    return [], run, {"rule": "fixtures + product of 6 v-model spellings x 7 value/argument/modifier forms x 11 hosts x 3 targets (targets other than identifier sampled 1/3 in quick) + v-models lists x hosts + %d generated modules rich in v-model(s)" % len(mods),
+                     "exhaustive": tier != "quick", "exhaustive_part": "spellings x forms x hosts x targets product", "histogram": dict(hist.most_common(40))}
+
+
+PROPS["C05"] = {
+    "theorems": ["C05_select", "C05_textarea", "C05_input_checkbox", "C05_input_radio", "C05_input_other_static", "C05_input_no_type",
+                 "C05_input_dynamic_type", "C05_listener_assigns_target", "C05_component_default", "C05_component_modifiers",
+                 "C05_component_static_arg", "C05_element_binding", "C05_models_sequence", "C05_models_entry_plain", "C05_models_entry_named"],
+    "cases": c05_cases,
+    "explanation": "oracle: on every element carrying v-model(s) the denoted props (value prop, modifiers prop, onUpdate listener assigning to the target) and directive bindings (vModelText/Checkbox/Radio/Select/Dynamic by host and type) equal those evaluated from the real output; v-models is expanded to the same-order v-model sequence in the denotation",
+}
